@@ -1,4 +1,5 @@
 import MitmVerif.Model.C03
+import MitmVerif.Model.C03_Enc
 import Driver.Proto
 import Std.Data.HashMap
 open MitmVerif Driver MitmVerif.C03
@@ -113,13 +114,11 @@ def allEv : List AEv :=
 def allDone : List AEv :=
   (hooks.flatMap fun h => actions.map fun a => AEv.hookDone h a) ++ (bools.map .connDone) ++ (bools.map .openDone)
 
-def norm (c : Core) : Core := { c with crashed := false }
-
 def succs (c : Core) : List (AEv × Bool × Core) :=
   if c.paused.isNone then allEv.flatMap fun ev => bools.flatMap fun p =>
     -- right after a completion an event may be a replayed (queued) one or a new (direct) one
-    (if c.draining then [true, false] else [false]).map fun q => (ev, p, norm (procEv c ev p q).c)
-  else allDone.flatMap fun ev => bools.map fun p => (ev, p, norm (procDone c ev p).c)
+    (if c.draining then [true, false] else [false]).map fun q => (ev, p, (procEv c ev p q).c)
+  else allDone.flatMap fun ev => bools.map fun p => (ev, p, (procDone c ev p).c)
 
 partial def bfs (seen : Std.HashMap Core (Option (Core × AEv × Bool))) (frontier : List Core) :
     Std.HashMap Core (Option (Core × AEv × Bool)) :=
@@ -167,9 +166,23 @@ def reachMain : IO Unit := do
   report "v5" fun c => !c.bad && c.m.v5
   report "closure" closureBad
 
+/-- `mv_c03 cert`: the reachable abstract states as numerals (one per line, ascending), after checking that
+    `dec (enc c) = c` for each of them -/
+def certMain : IO Unit := do
+  let c0 : Core := {}
+  let r := bfs ((Std.HashMap.emptyWithCapacity 4096).insert c0 none) [c0]
+  let all := r.toList.map (·.1)
+  let badRt := all.filter fun c => Core.dec c.enc != c
+  if !badRt.isEmpty then
+    IO.eprintln s!"enc/dec do not round-trip on {badRt.length} states, e.g. {reprStr badRt.head!}"
+    IO.Process.exit 1
+  let nums := (all.map Core.enc).toArray.qsort (· < ·)
+  for n in nums do IO.println (toString n)
+
 end C03Driver
 
 def main (args : List String) : IO Unit :=
   match args with
   | ["reach"] => C03Driver.reachMain
+  | ["cert"] => C03Driver.certMain
   | _ => runState C03Driver.stepLine (init 0 0)
